@@ -23,7 +23,12 @@ RULE = ("one operation = one key exchange of the real client (NewMTProto + Creat
         "wrong keys; another constructor inside the answer; server_DH_params_fail, dh_gen_retry, dh_gen_fail (also "
         "carrying hash1), replies swapped between steps, rpc_error, null, boolTrue at each step; pq = 0 / 1 / prime; "
         "undecodable bodies (unknown id, truncated, empty, bare vector, flipped id) at each step; plus the "
-        "consistent variations (pq another semiprime, server_time, g). distinct = distinct operation lines; each "
+        "consistent variations (pq another semiprime, server_time, g). Server keys from a pool of 3 (thorough 4) in "
+        "turn; first in every run, c07.seq operations = several exchanges in ONE operation with the caller's "
+        "rsa.PublicKey object fresh / one object reassigned / one object overwritten in place between exchanges: "
+        "resPQ offering only the fingerprint of the key the object held EARLIER (must be refused), offering the "
+        "current key's alone / next to the earlier one (must be accepted), back to the first key, after an abandoned "
+        "exchange. distinct = distinct operation lines; each "
         "is compared with the Lean client machine (outcome class, the three request bodies, key, salt, flags, "
         "stores) and judged by the independent reply-sequence judge")
 
